@@ -122,7 +122,25 @@ def run_ticking(out, rnd, zone, n):
                      nontrivial=lambda c: True, sample=lambda c: c, classify=lambda c, i: "ticking/" + c["zone"])
 
 
+def thread_call(start, days):
+    from aioswitcher.schedule import Days, tools
+    D_ = list(Days)
+    try: return "ok " + tools.pretty_next_run(start, {D_[i] for i in days})
+    except Exception: return "raised"
+
+
+def run_threads(tier, out, rnd):
+    """the first next-run texts of a fresh interpreter, asked for by several threads at once (host zone UTC, the clock standing still)"""
+    now = rnd.randrange(1_600_000_000, 1_900_000_000); dt = D.datetime.fromtimestamp(now, D.timezone.utc)
+    cs = [("12:00", [(dt.weekday() + k) % 7]) for k in (3, 2, 4, 5, 3, 6)]          # the first calls of every thread reach the last branch (a weekday's name)
+    cs += [("%02d:%02d" % (rnd.randrange(24), rnd.randrange(60)), sorted(rnd.sample(range(7), rnd.randrange(1, 8)))) for _ in range(30)] + [("12:00", [d]) for d in range(7)]
+    ex = lib.run_model([lib.req("next_run_spec", dt.weekday(), dt.hour * 60 + dt.minute, int(s[:2]) * 60 + int(s[3:]), s, ds) for s, ds in cs])
+    world.run_threads(out, "several-threads-from-the-first-call-on", "props.c13", "thread_call", [[s, ds] for s, ds in cs], ex,
+                      lambda c: "pretty_next_run(%r, days %s) at %d UTC" % ((c[0], c[1], now) if c else ("?", "?", now)), startups=96 if tier == "quick" else 1200, spread=False, now=now, zone="UTC")
+
+
 def run(tier, rnd, out):
+    run_threads(tier, out, rnd)
     zones = ["UTC", "Asia/Jerusalem", "America/Los_Angeles", "Pacific/Kiritimati"] if tier == "quick" else world.ZONES_QUICK + ["America/Los_Angeles", "Asia/Tokyo", "Europe/London"]
     for c in lib.load_corpus("C13"): run_zone(out, "corpus", c["zone"], [c])
     for zone in zones:
@@ -133,6 +151,9 @@ def run(tier, rnd, out):
 
 
 def replay(rp, out):
+    if "threads" in rp.get("stream", ""):
+        import random
+        return run_threads("thorough", out, random.Random(int(rp.get("seed", 1))))
     c = rp["input"]
     if "recs" in c:
         import random
